@@ -360,6 +360,7 @@ def schedEnabled (st : St) (i : Nat) : Bool :=
   match (st.threads i).pgm with
   | [] => false
   | .yld (.lock k) :: _ => lockFree st k i
+  | .acquire k :: _ => lockFree st k i
   | _ => true
 
 /-- Run thread `i` from the point where it is parked to its next active scheduling point. -/
@@ -505,7 +506,7 @@ def keyUniverse (c : Case) : List Key :=
 def subObs (st : St) (u : List Key) (tid nth : Nat) (r : SubRec) : SubObs :=
   let q := st.queues r.sid
   let (sp, spost) := if r.want then drainSnapshot q ([], []) else ([], [])
-  { tid := tid, nth := nth, want := r.want, live := r.live
+  { tid := tid, nth := nth, want := r.want, live := decide (r.sid ∈ st.subscribers)
     ctl := ctlOf q
     hist := u.map fun key => (histPre key q, histPost key q)
     snap := u.map fun key => (sp.get key, spost.get key)
